@@ -179,6 +179,12 @@ let run_case (line:str) : str =
     let leaf = tn ts in let es = tents ts in
     let ((root, leaves), n) = build_roots_leaves serialize_entries es leaf in
     Printf.sprintf "ok %d %s %s" (int_of_nat n) (digest_bytes root) (digest_bytes leaves)
+  | "optreg" ->
+    let target = tn ts in let n = ti ts in let gap = tn ts in let l = tn ts in
+    let es = L.init n (fun i -> { tid = N.mul (n_of_int i) gap; off = N.mul (n_of_int i) l; len = l; run = n_of_int 1 }) in
+    (match optimize_small serialize_entries es target with
+     | Some ((root, leaves), nl) -> Printf.sprintf "ok %d %s %s" (int_of_nat nl) (digest_bytes root) (digest_bytes leaves)
+     | None -> "outoffuel")
   | "optdir" ->
     let target = tn ts in let es = tents ts in
     (match optimize_small serialize_entries es target with
